@@ -62,7 +62,7 @@ Qed.
 Lemma step_incomplete q w a : Incomplete w -> Incomplete (fst (step q w a)).
 Proof.
   intros H. unfold step.
-  destruct a as [ops srs|ops srs|cid op pl|cid sr sts| |b].
+  destruct a as [ops srs|ops srs|cid op pl|cid sr sts| |b|rid|].
   - destruct (pend (w_store w)) eqn:Ep; cbn [fst]; [exact H|].
     unfold Incomplete. cbn [w_store pend]. apply new_pending_incomplete.
   - destruct (pend (w_store w)) as [p|] eqn:Ep.
@@ -76,6 +76,8 @@ Proof.
     destruct (add_sr q p sr sts); [apply finish_incomplete|exact H].
   - cbn [fst]. unfold Incomplete, load_store. destruct (max_snap None (w_files w)); cbn [w_store pend]; exact I.
   - cbn [fst]. exact H.
+  - destruct (find_snap rid (w_sps w)); cbn [fst]; unfold Incomplete; cbn [w_store pend new_store]; exact I.
+  - cbn [fst]. unfold Incomplete, with_pending. cbn [w_store pend]. exact I.
 Qed.
 
 Lemma final_incomplete q acts : forall w, Incomplete w -> Incomplete (final q w acts).
@@ -85,7 +87,7 @@ Proof.
 Qed.
 
 Lemma with_pending_same w : with_pending w (pend (w_store w)) = w.
-Proof. destruct w as [[c p k] f b]. reflexivity. Qed.
+Proof. destruct w as [[c p k] f b sp]. reflexivity. Qed.
 
 Theorem bad_acks_inert_lemma acts a :
   let w := final repaired init acts in
@@ -95,7 +97,7 @@ Proof.
   intros w Hbad.
   assert (Hinc : Incomplete w) by (apply final_incomplete; exact I).
   unfold Incomplete in Hinc. unfold bad_ack in Hbad.
-  destruct a as [ops srs|ops srs|cid op pl|cid sr sts| |b]; try contradiction; unfold step.
+  destruct a as [ops srs|ops srs|cid op pl|cid sr sts| |b|rid|]; try contradiction; unfold step.
   - destruct (pend (w_store w)) as [p|] eqn:Ep.
     + destruct (N.eqb_spec (p_id p) cid) as [E|E]; cbn [negb].
       * destruct Hbad as [Hb|Hb]; [contradiction|].
@@ -142,20 +144,21 @@ Fixpoint handed_ids (rs : list result) : list N :=
   | [] => []
   | r :: rs' => match handed r with Some i => i :: handed_ids rs' | None => handed_ids rs' end
   end.
-Definition no_restart (acts : list action) : Prop := Forall (fun a => a <> ARestart) acts.
+Definition is_restart (a : action) : Prop := match a with ARestart | ARestartFrom _ => True | _ => False end.
+Definition no_restart (acts : list action) : Prop := Forall (fun a => ~ is_restart a) acts.
 Fixpoint increasing_from (b : N) (l : list N) : Prop :=
   match l with [] => True | x :: l' => b < x /\ increasing_from x l' end.
 
 Lemma increasing_from_weaken b b' l : b' <= b -> increasing_from b l -> increasing_from b' l.
 Proof. destruct l as [|x l]; cbn; [tauto|]. intros H [H1 H2]. split; [lia|exact H2]. Qed.
 
-Lemma step_counter q w a : a <> ARestart ->
+Lemma step_counter q w a : ~ is_restart a ->
   ckpt_id (w_store w) <= ckpt_id (w_store (fst (step q w a))) /\
   (forall i, handed (snd (step q w a)) = Some i ->
      i = ckpt_id (w_store w) + 1 /\ ckpt_id (w_store (fst (step q w a))) = i).
 Proof.
   intros Ha. unfold step.
-  destruct a as [ops srs|ops srs|cid op pl|cid sr sts| |b]; [| | | |congruence|cbn [fst snd w_store ckpt_id handed]; split; [lia|discriminate]].
+  destruct a as [ops srs|ops srs|cid op pl|cid sr sts| |b|rid|]; [| | | |exfalso; apply Ha; exact I|cbn [fst snd w_store ckpt_id handed]; split; [lia|discriminate]|exfalso; apply Ha; exact I|cbn [fst snd w_store ckpt_id handed with_pending]; split; [lia|discriminate]].
   - destruct (pend (w_store w)); cbn [fst snd w_store ckpt_id handed].
     + split; [lia|discriminate].
     + split; [lia|]. intros i E. inversion E. split; reflexivity.
